@@ -21,6 +21,11 @@ import (
 func (ob *Obligation) smtText(models bool, mode string) string {
 	x := ob.ctx
 	c := x.c
+	if !models {
+		// (model extraction keeps its terms: the replay reads values back through them)
+		n0, f0 := c.begin()
+		defer c.rollback(n0, f0)
+	}
 	var sb strings.Builder
 	if models {
 		sb.WriteString("(set-option :produce-models true)\n")
@@ -116,17 +121,36 @@ var genMu sync.Mutex // term construction (ground instantiation) is not concurre
 var genSeconds float64
 var tRel, tRest float64 // time in hypothesis selection / instantiation+printing (development aid)
 
+// A solver's budget is counted in its own resource units (z3: rlimit, cvc5: --rlimit), not in seconds:
+// the units count work done, so whether a query is decided within its budget does not depend on how fast
+// the machine is or on what else is running -- with the query texts being the same on every run (det.go),
+// the verdict on an unchanged tree is the same on every run. Budgets are still written as nominal
+// milliseconds (3 s first stage, 10 s quick, 60 s thorough) and converted with a per-solver rate measured
+// on this code base's queries on a quiet machine. A wall-clock limit remains as a safety net only, at six
+// times the nominal budget and no less than a minute.
 type solverSpec struct {
 	name string
-	args func(file string, timeoutMs int) []string
+	rate int // resource units per nominal millisecond
+	args func(file string, units int, wallMs int) []string
 }
 
 var solvers = []solverSpec{
-	{"z3-new", func(f string, ms int) []string { return []string{"z3-new", fmt.Sprintf("-T:%d", (ms+999)/1000), "-smt2", f} }},
-	{"z3", func(f string, ms int) []string { return []string{"z3", fmt.Sprintf("-T:%d", (ms+999)/1000), "-smt2", f} }},
-	{"cvc5", func(f string, ms int) []string {
-		return []string{"cvc5", fmt.Sprintf("--tlimit=%d", ms), f}
+	{"z3-new", 5000, func(f string, units, ms int) []string {
+		return []string{"z3-new", fmt.Sprintf("-T:%d", (ms+999)/1000), fmt.Sprintf("rlimit=%d", units), "-smt2", f}
 	}},
+	{"z3", 8000, func(f string, units, ms int) []string {
+		return []string{"z3", fmt.Sprintf("-T:%d", (ms+999)/1000), fmt.Sprintf("rlimit=%d", units), "-smt2", f}
+	}},
+	{"cvc5", 400, func(f string, units, ms int) []string {
+		return []string{"cvc5", fmt.Sprintf("--tlimit=%d", ms), fmt.Sprintf("--rlimit=%d", units), f}
+	}},
+}
+
+func wallCapMs(nominalMs int) int {
+	if w := 6 * nominalMs; w > 60000 {
+		return w
+	}
+	return 60000
 }
 
 type solveResult struct {
@@ -136,8 +160,21 @@ type solveResult struct {
 	output  string
 }
 
-func runSolver(ctx context.Context, s solverSpec, file string, timeoutMs int) solveResult {
-	args := s.args(file, timeoutMs)
+func runSolver(ctx context.Context, s solverSpec, file string, nominalMs int) solveResult {
+	return runSolverWall(ctx, s, file, nominalMs, wallCapMs(nominalMs))
+}
+
+// runSolverWall: with an explicit wall-clock limit (the vacuity probes, whose "undecided" is a note and
+// not an alarm, keep the nominal time as their wall-clock limit: some of them use next to no resource
+// units per second and would otherwise hold a core for the whole safety net).
+func runSolverWall(ctx context.Context, s solverSpec, file string, nominalMs, timeoutMs int) solveResult {
+	units := s.rate * nominalMs
+	if p, err := strconv.Atoi(os.Getenv("GOVC_BUDGET_PCT")); err == nil && p > 0 {
+		// development aid (margins): the same run with a fraction of every budget shows which obligations
+		// are decided with little to spare
+		units = units / 100 * p
+	}
+	args := s.args(file, units, timeoutMs)
 	cctx, cancel := context.WithTimeout(ctx, time.Duration(timeoutMs+2000)*time.Millisecond)
 	defer cancel()
 	cmd := exec.CommandContext(cctx, args[0], args[1:]...)
@@ -168,6 +205,9 @@ func runSolver(ctx context.Context, s solverSpec, file string, timeoutMs int) so
 	default:
 		if cctx.Err() != nil || ctx.Err() != nil {
 			verdict = "timeout"
+		} else if s.name == "cvc5" && strings.Contains(text, "cadical: fatal error") {
+			// how cvc5 1.0 ends when its resource limit is reached inside the SAT solver
+			verdict = "unknown"
 		} else if strings.Contains(text, "error") || strings.Contains(text, "Error") {
 			verdict = "error"
 		}
@@ -208,10 +248,10 @@ func discharge(ob *Obligation, dir string, timeoutMs int, confirm bool) {
 		first = 3000
 	}
 	if ob.Cover {
-		r := runSolver(context.Background(), solvers[0], file, first)
+		r := runSolverWall(context.Background(), solvers[0], file, first, first)
 		if r.verdict != "sat" && r.verdict != "unsat" && ob.Func != "axioms" {
 			// (the axiom probe gets the short attempt only: it looks for an outright contradiction)
-			r = runSolver(context.Background(), solvers[1], file, timeoutMs)
+			r = runSolverWall(context.Background(), solvers[1], file, timeoutMs, timeoutMs)
 		}
 		ob.Verdict, ob.Solver, ob.Seconds = r.verdict, r.solver, r.secs
 		return
@@ -386,8 +426,33 @@ func confirmWith(ob *Obligation, file, used string, timeoutMs int) {
 	}
 }
 
+// retryExempt: obligations that get no second attempt (set by the check command).
+var retryExempt func(ob *Obligation) bool
+
 func dischargeAll(obls []*Obligation, dir string, timeoutMs int, par int, confirm bool) {
 	os.MkdirAll(dir, 0o755)
+	// the few terms the case split makes outside the rendering of a query, made here, in order (see det.go)
+	for _, ob := range obls {
+		if len(ob.Splits) >= 2 && !ob.Cover {
+			for _, s := range ob.Splits {
+				ob.ctx.c.Not(s)
+			}
+		}
+	}
+	if os.Getenv("GOVC_GENONLY") != "" {
+		// development aid (tools/determinism.sh): write the query texts and stop
+		for _, ob := range obls {
+			mode := "full"
+			if ob.Cover {
+				mode = "cover"
+			}
+			os.WriteFile(filepath.Join(dir, sanitize(ob.Name)+".smt2"), []byte(ob.smtText(false, mode)), 0o644)
+			if !ob.Cover {
+				os.WriteFile(filepath.Join(dir, sanitize(ob.Name)+".ground.smt2"), []byte(ob.smtText(false, "ground")), 0o644)
+			}
+		}
+		return
+	}
 	var wg sync.WaitGroup
 	sem := make(chan struct{}, par)
 	for _, ob := range obls {
@@ -400,14 +465,16 @@ func dischargeAll(obls []*Obligation, dir string, timeoutMs int, par int, confir
 		}(ob)
 	}
 	wg.Wait()
-	// Second chance, in a quiet phase: an obligation that was not decided (a timeout, "unknown", or a
-	// model of the ground-instantiated query only, which refutes nothing) while up to par x 3 solvers
-	// shared the cores is tried once more, two at a time, with four times the limit. A real refutation
-	// (a model of the full query) is final and is not retried.
+	// Second chance: an obligation that was not decided (budget used up, "unknown", or a model of the
+	// ground-instantiated query only, which refutes nothing) is tried once more, two at a time, with four
+	// times the budget. A real refutation (a model of the full query) is final and is not retried.
 	var again []*Obligation
 	for _, ob := range obls {
 		if ob.Cover || ob.Verdict == "unsat" || (ob.Verdict == "sat" && ob.SatMode != "ground") {
 			continue
+		}
+		if retryExempt != nil && retryExempt(ob) {
+			continue // the obligation of a listed known finding: expected not to be discharged
 		}
 		again = append(again, ob)
 	}
